@@ -21,11 +21,13 @@
 (*   Dev_IgnoreDeviceError  a failed erase / write is printed and ignored  *)
 (*   Dev_SkipSleep          the requested poll delay is not waited for     *)
 (*   Dev_NoEraseLoop        the erase poll loop is left after one answer   *)
+(*   Dev_IgnoreSetAddrError the status polled after "set address" is       *)
+(*                          discarded (the code before it was repaired)    *)
 (***************************************************************************)
 EXTENDS Integers, Sequences, FiniteSets, TLC, DfuDevice
 
 CONSTANTS PageSize, PageCount, MaxLen, MaxBusy, Timeouts, MaxErrors, ErrStatuses, StrictDevice,
-          Dev_IgnoreDeviceError, Dev_SkipSleep, Dev_NoEraseLoop
+          Dev_IgnoreDeviceError, Dev_SkipSleep, Dev_NoEraseLoop, Dev_IgnoreSetAddrError
 
 Pages(n) == (n + PageSize - 1) \div PageSize
 
@@ -59,7 +61,7 @@ GetStatusAt(pc, next(_), countsAsOpResult) ==
   /\ \E st \in {OK, 14} \cup ErrStatuses, state \in {"dfuIDLE", "dfuDNBUSY", "dfuDNLOAD-IDLE", "dfuERROR"}, t \in Timeouts :
        \E d2 \in GetStatus(d, st, state, t, clock) :
           /\ (state = "dfuDNBUSY" /\ Busy(d)) => busyLeft > 0
-          /\ (st # OK /\ Busy(d)) => (errLeft > 0 /\ d.pending[1] \in {"erase", "write"})
+          /\ (st # OK /\ Busy(d)) => (errLeft > 0 /\ d.pending[1] \in {"erase", "write", "setaddr"})
           /\ (d.pending[1] = "badaddr" /\ state # "dfuDNBUSY") => st = 8
           /\ d' = d2
           /\ busyLeft' = IF state = "dfuDNBUSY" /\ Busy(d) THEN busyLeft - 1 ELSE busyLeft
@@ -99,14 +101,18 @@ EraseChk == hpc = "erase_chk" /\
 SetAddr == hpc = "setaddr" /\
   IF page < Pages(len) THEN DnloadAt("setaddr", "setaddr", FlashBase + page * PageSize, 5, "setaddr_gs")
   ELSE Finish(0, TRUE, FALSE)
-SetAddrGs == GetStatusAt("setaddr_gs", LAMBDA s : IF s = "dfuDNBUSY" THEN "setaddr_gs" ELSE "download", FALSE)
+\* setting the address pointer is the first half of writing a page: its status is an operation result too
+SetAddrGs == GetStatusAt("setaddr_gs", LAMBDA s : IF s = "dfuDNBUSY" THEN "setaddr_gs" ELSE "setaddr_chk", TRUE)
+SetAddrChk == hpc = "setaddr_chk" /\
+  IF hstatus # OK /\ ~Dev_IgnoreSetAddrError THEN Finish(1, FALSE, TRUE)
+  ELSE Goto("download") /\ UNCHANGED page
 Download == DnloadAt("download", "write", page + 100, PageSize, "download_gs")
 DownloadGs == GetStatusAt("download_gs", LAMBDA s : IF s \in {"dfuDNLOAD-IDLE", "dfuERROR"} THEN "download_chk" ELSE "download_gs", TRUE)
 DownloadChk == hpc = "download_chk" /\
   IF hstatus # OK /\ ~Dev_IgnoreDeviceError THEN Finish(1, FALSE, TRUE)
   ELSE Goto("setaddr") /\ page' = page + 1
 
-Next == Guard \/ InitGs \/ Clr \/ InitGs2 \/ Erase \/ EraseGs \/ EraseChk \/ SetAddr \/ SetAddrGs
+Next == Guard \/ InitGs \/ Clr \/ InitGs2 \/ Erase \/ EraseGs \/ EraseChk \/ SetAddr \/ SetAddrGs \/ SetAddrChk
         \/ Download \/ DownloadGs \/ DownloadChk \/ Sleep
 
 Spec == Init /\ [][Next]_vars
@@ -126,7 +132,7 @@ FlashEqualsPaddedImage == (hpc = "exit" /\ saidDone) =>
 ErrorNeverAnnouncedDone == (hpc = "exit" /\ sawError) => (~saidDone /\ exit # 0)
 OversizeExit == (hpc = "exit" /\ len > PageSize * PageCount) => (exit # 0 /\ ~saidDone)
 Terminates == <>(hpc = "exit")
-TypeOK == hpc \in {"guard", "init_gs", "clr", "init_gs2", "erase", "erase_gs", "erase_chk", "setaddr", "setaddr_gs",
+TypeOK == hpc \in {"guard", "init_gs", "clr", "init_gs2", "erase", "erase_gs", "erase_chk", "setaddr", "setaddr_gs", "setaddr_chk",
                    "download", "download_gs", "download_chk", "sleep", "exit"}
 
 \* Export of complete behaviours (device side of the conversation) for replay into the real host
